@@ -418,6 +418,106 @@ def offsets(R, P):
         R.check(not later, "OFFSET", "init_from_str:offset-final-after-sign", "%s()" % g.name, "the offset is not modified after its sign has been applied", "the offset is modified after the sign was applied (at line %s)" % [e.line for e in later])
 
 
+def appends_to_buffer(R, P):
+    """FORMAT-TABLE/appends: the formatter writes behind what the output buffer already holds and advances its length by what
+    strftime wrote (NUM, every successful return: len_after == len_before + result, the write position is buffer + len_before
+    and the bound handed to strftime is capacity - len_before) - a date appended to a header line or a second date in the
+    same buffer must come out whole."""
+    f = P.fn("s_date_to_str")
+    if not R.require(f is not None, "s_date_to_str not found"):
+        return
+    from sa.awslib import AwsHooks
+
+    class H(AwsHooks):
+        def call(self, num, st, e, args):
+            if e.get("callee") == "strftime":
+                r = num.fresh(st, "written", None, (0, 2 ** 62))
+                st.notes["strftime"] = (r, args[0], args[1])
+                if args[1] is not None:
+                    st.add(Poly.atom(r) - args[1])  # strftime returns at most max - 1 (0 when the result does not fit)
+                return Poly.atom(r)
+            return AwsHooks.call(self, num, st, e, args)
+    num = Num(f, P, H(), max_paths=4000)
+    rets = [x for b in f.blocks.values() for x in b.elems if x["k"] == "ret"]
+    try:
+        sts = num.states_at({r["id"] for r in rets})
+    except Limit as ex:
+        R.broken(str(ex))
+        return
+    ok, det, n = True, "", 0
+    for r in rets:
+        for st in sts.get(r["id"], []):
+            rv = num.val(r["a"][0], st) if r.get("a") else None
+            if rv is None or not rv.is_const() or rv.cval() != 0:
+                continue
+            n += 1
+            sf = st.notes.get("strftime")
+            lens = [(k, v) for k, v in st.env.items() if (st.meta.get(k) or (None, None))[:2] == ("aws_byte_buf", "len")]
+            if sf is None or len(lens) != 1:
+                ok, det = False, "no strftime call / output length on a successful path"
+                continue
+            k, L1 = lens[0]
+            a0 = (st.notes.get("orig") or {}).get(k)
+            L0 = Poly.atom(a0) if a0 else None
+            R_ = Poly.atom(sf[0])
+            if L0 is None or not (entails(st, L1 - L0 - R_) and entails(st, L0 + R_ - L1)):
+                ok, det = False, "the length becomes %r (before: %r, written: %r)" % (L1, L0, R_)
+                continue
+            bufk = k[:-len("len")] + "buffer"
+            cap = st.env.get(k[:-len("len")] + "capacity")
+            bv = st.env.get(bufk)
+            if sf[1] is None or bv is None or not (entails(st, sf[1] - bv - L0) and entails(st, bv + L0 - sf[1])):
+                ok, det = False, "strftime writes at %r, not at buffer + len" % (sf[1],)
+            elif sf[2] is None or cap is None or not entails(st, sf[2] + L0 - cap):
+                ok, det = False, "strftime may write %r bytes where capacity - len are left" % (sf[2],)
+    R.check(ok and n >= 1, "FORMAT-TABLE", "formatted-date-is-appended", "%s()" % f.name, "written behind the existing content, length advanced by the bytes written (%d states)" % n,
+            "the formatted date is not appended properly: %s - in a buffer that already holds text the reported slice is a truncated date (or the text before it is lost)" % det)
+
+
+def auto_detect(R, P):
+    """FORMAT-TABLE/parse:auto-detect-tries-both: with AWS_DATE_FORMAT_AUTO_DETECT every path through the parse dispatch on
+    which the ISO 8601 parser did not succeed reaches the RFC 822 parser (NUM, the format parameter fixed to AUTO_DETECT, the
+    two parsers' verdicts symbolic) - whatever the text looks like: an RFC 822 date without its optional week day starts with
+    a digit."""
+    f = P.fn("aws_date_time_init_from_str_cursor")
+    auto = P.enums.get("AWS_DATE_FORMAT_AUTO_DETECT")
+    if not R.require(f is not None and auto is not None and len(f.params) >= 3, "parse dispatch / AWS_DATE_FORMAT_AUTO_DETECT not found"):
+        return
+    from sa.awslib import AwsHooks
+    fmtp = [p_["n"] for p_ in f.params if "aws_date_format" in (f.unit.types[p_["t"]] or {}).get("s", "")]
+    if not R.require(len(fmtp) == 1, "parse dispatch: the format parameter not found"):
+        return
+
+    class H(AwsHooks):
+        def entry(self, num, st):
+            st.env["v:" + fmtp[0]] = Poly.const(auto)
+            if hasattr(AwsHooks, "entry"):
+                AwsHooks.entry(self, num, st)
+
+        def call(self, num, st, e, args):
+            c = e.get("callee")
+            if c in ("s_parse_iso_8601", "s_parse_rfc_822"):
+                a = num.fresh(st, "parsed", None, (0, 1))
+                st.notes["iso" if "iso" in c else "rfc"] = a
+                AwsHooks.call(self, num, st, e, args)
+                return Poly.atom(a)
+            return AwsHooks.call(self, num, st, e, args)
+    num = Num(f, P, H(), max_paths=20000)
+    try:
+        sts = num.states_at({-1}).get(-1, [])
+    except Limit as ex:
+        R.broken(str(ex))
+        return
+    ok, det = True, ""
+    for st in sts:
+        iso, rfc = st.notes.get("iso"), st.notes.get("rfc")
+        iso_ok = iso is not None and entails(st, Poly.const(1) - Poly.atom(iso))
+        if iso is not None and not iso_ok and rfc is None:
+            ok, det = False, "trail %s" % (st.trail[-6:],)
+    R.check(ok and len(sts) >= 2, "FORMAT-TABLE", "parse:auto-detect-tries-both", "%s()" % f.name, "with auto-detection a text the ISO 8601 parser does not accept always reaches the RFC 822 parser (%d states)" % len(sts),
+            "with AWS_DATE_FORMAT_AUTO_DETECT a path returns without the RFC 822 parser having been tried although the ISO 8601 parser did not succeed (%s): auto-detection and the explicit format disagree for such texts" % det)
+
+
 def format_table(R, P):
     fm = {"RFC822_DATE_FORMAT_STR_MINUS_Z": "%a, %d %b %Y %H:%M:%S GMT", "RFC822_DATE_FORMAT_STR_WITH_Z": "%a, %d %b %Y %H:%M:%S %Z", "RFC822_SHORT_DATE_FORMAT_STR": "%a, %d %b %Y",
           "ISO_8601_LONG_DATE_FORMAT_STR": "%Y-%m-%dT%H:%M:%SZ", "ISO_8601_SHORT_DATE_FORMAT_STR": "%Y-%m-%d", "ISO_8601_LONG_BASIC_DATE_FORMAT_STR": "%Y%m%dT%H%M%SZ", "ISO_8601_SHORT_BASIC_DATE_FORMAT_STR": "%Y%m%d"}
@@ -754,6 +854,8 @@ def analyse(ctx, replace=None, only=None):
     delegation(R, P)
     offsets(R, P)
     format_table(R, P)
+    appends_to_buffer(R, P)
+    auto_detect(R, P)
     date_only_accepted(R, P)
     nanos_range(R, P)
     units(R, P)
